@@ -30,6 +30,8 @@ NEAR_MISSES = ['12abc', '1.2.3', '1e', '--1', '0x1F', '1,5', '', ' ', '\t', 'inf
 INT_NEAR_MISSES = ['12abc', '1.5', '1e5', '', ' ', '--1', '0x1F', '1,5', 'inf', 'nan', '1 2', 'abc', '.', '-', '1.0', 'z',
                    '\ufb00', '\u33c4', '\u339d', '\u216b', '\u2177', '\u00b2', '1\u2460', '\u210c', '-\u24d5\u24d5', '\uff26\uff26', '(1)', '1)', 'f f', 'ff.', '+-f']
 
+# texts that are not integers in any radix: compatibility characters that merely LOOK like digits / letters, stray punctuation
+NEVER_INT = ['\ufb00', '\u33c4', '\u339d', '\u216b', '\u2177', '\u00b2', '1\u2460', '\u210c', '-\u24d5\u24d5', '(1)', '1)', 'f f', 'ff.', '+-f', '', ' ', '.', '-', '1,5', '--1', '1 2']
 _m = {}
 # an integral number as the library hands it to a script (mathFloor / mathCeil / mathRound / numberParseInt / jsonParse results need not be the
 # same host type as a literal): it must print and re-parse like the literal of the same value
@@ -160,6 +162,8 @@ def check_parse(s, radix=None):
             raise Violation('numberParseInt(%r, %r) = %r, expected %r' % (s, radix, v, want), d, 'parseint-value')
     elif radix is None and s in INT_NEAR_MISSES and v is not None:
         raise Violation('numberParseInt(%r) = %r, expected null' % (s, v), d, 'parseint-nearmiss')
+    elif s in NEVER_INT and v is not None:
+        raise Violation('numberParseInt(%r, %r) = %r, expected null (the text is not a number in any radix)' % (s, radix, v), d, 'parseint-nearmiss')
     return v
 
 
